@@ -482,25 +482,23 @@ def meaning(cs, sv: SpecView, c: Cand):
         return b3(all(ts[i + 1].s == ts[i].e for i in range(len(ts) - 1)))
     if k in ("UnorderedTaskGroup", "OrderedTaskGroup"):
         ids = cs["tasks"]
-        if not sched(*ids):
-            return U
-        ts = [Tk[i] for i in ids]
+        # like every task constraint it binds the scheduled members only (docs: "if the task
+        # is optional these constraints apply only if the task is scheduled")
+        ts = [Tk[i] for i in ids if Tk[i].x]
         ok = True
-        if cs.get("interval") is not None:
+        if ts and cs.get("interval") is not None:
             a, b = cs["interval"]
             ok = all(t.s >= a and t.e <= b for t in ts)
-        elif cs.get("length"):
+        elif ts and cs.get("length") is not None:
             ok = max(t.e for t in ts) - min(t.s for t in ts) <= cs["length"]
-        elif cs.get("length") is None:
-            pass
-        else:
-            # time_interval_length == 0 is the library default when the user gives no
-            # window at all; "the window is optional" in the docs -> no window rule.
-            pass
+        # neither given: no window (the window is optional)
         if k == "OrderedTaskGroup" and ok:
             mode = cs.get("mode", "lax")
-            for i in range(len(ts) - 1):
-                a, b = ts[i].e, ts[i + 1].s
+            for i in range(len(ids) - 1):
+                p, q = Tk[ids[i]], Tk[ids[i + 1]]
+                if not (p.x and q.x):
+                    continue  # the order is stated between consecutive list members, both scheduled
+                a, b = p.e, q.s
                 if not (a <= b if mode == "lax" else a < b if mode == "strict" else a == b):
                     ok = False
         return b3(ok)
